@@ -90,8 +90,13 @@ func Run(c *hl.Ctx, s Scenario) int {
 				for i := 0; i < 2; i++ {
 					y := vsched.RunOne(ch, s.Horizon, s.Setup)
 					_, k2, _ := judge(&s, y)
-					if k2 != key || y.Diverged != "" {
+					if k2 == "" || y.Diverged != "" {
 						panic(fmt.Sprintf("nondeterministic replay in scenario %s: first verdict %q, replay %d verdict %q diverged=%q", s.Name, key, i, k2, y.Diverged))
+					}
+					if k2 != key {
+						// every run of the schedule violates the property, under different clauses (data the harness does
+						// not own, e.g. random mask keys, decides how corrupted bytes parse): reported under the first
+						what += fmt.Sprintf("\n(replay %d of the same schedule is judged %q)", i, k2)
 					}
 				}
 				c.Violation(key, what, ReplayCase{Scenario: s.Name, Choices: ch, Trace: x.Trace, Bound: b})
